@@ -21,7 +21,7 @@ import (
 
 var queries = []string{
 	`a:(x OR y) AND NOT b:[1 TO 5] AND c:w*`,
-	`+p:>=2 AND -q:"r s" AND u:/v.w/`,
+	`+p:>=2 AND -q:"r s" AND u:/v.w/ AND (zz:[* TO 9] OR yy:{k TO m})`,
 	`a:b AND c:/d.e/ OR f:[* TO 1.5]`,
 	`x y "z w"`,
 }
